@@ -25,6 +25,11 @@ type StubRequest struct {
 	Nth   int          // invocation number for this (name,type,class) (1-based)
 	Q     dns.Question // question as received (case preserved)
 	Msg   *dns.Msg     // private copy of the request as the stub received it
+	// Live is the request message the chain itself carries (NOT a copy). Use
+	// it only to reproduce what the real resolver does with it — e.g. attach
+	// Live.IsEdns0() to the response so the response OPT *is* the request
+	// OPT (resolver.clearAdditional). Do not mutate it otherwise.
+	Live *dns.Msg
 	ID    uint16
 	RD    bool
 	CD    bool
@@ -213,6 +218,7 @@ func (s *Stub) ServeDNS(ctx context.Context, ch *middleware.Chain) {
 	sr := &StubRequest{
 		Seq:       s.seq.Add(1),
 		Msg:       req.Copy(),
+		Live:      req,
 		ID:        req.Id,
 		RD:        req.RecursionDesired,
 		CD:        req.CheckingDisabled,
